@@ -1,5 +1,8 @@
 import CogentModel.Model.Calculator
 import CogentModel.Proofs.CalcInv
+import CogentModel.Proofs.CalcReach
+import CogentModel.Model.Controller
+import CogentModel.Proofs.CtlInv
 /-! # C07 — incrementally recalculated values equal a fresh calculation (property theorems)
 
 `Model/Calculator.lean` mirrors `Calculator.change` (two buffers, `_switch`, `last_values`,
@@ -50,6 +53,71 @@ theorem calc_return_fresh (g : Graph V) (hwf : g.WF) (x0 : Nat → V) (s0 : St V
   simp only [Option.map_some, Option.some.injEq]
   exact getD_map_range _ g.n (g.n - 1) (by omega)
 
+/-- `testoptparvector` only ever produces change lists covered by these theorems -/
+theorem call_changes_valid (g : Graph V) (s : St V) (values : List V) : ValidCh g (diffVec g s values) := by
+  unfold diffVec ValidCh
+  constructor
+  · intro p hp
+    obtain ⟨i, hi, h⟩ := List.mem_filterMap.1 hp
+    split at h
+    · cases h
+    · cases h; simpa using hi
+  · have key : ∀ (l : List Nat), l.Nodup →
+        ((l.filterMap (fun i =>
+          if s.lastValues i = values.getD i default then none
+          else some (i, values.getD i default))).map Prod.fst).Nodup := by
+      intro l
+      induction l with
+      | nil => intro _; simp
+      | cons a l ih =>
+        intro hnd
+        have hnd' := List.nodup_cons.1 hnd
+        simp only [List.filterMap_cons]
+        split
+        · exact ih hnd'.2
+        · rename_i b hb
+          simp only [List.map_cons, List.nodup_cons]
+          refine ⟨?_, ih hnd'.2⟩
+          have hb1 : b.1 = a := by
+            split at hb
+            · cases hb
+            · cases hb; rfl
+          rw [hb1]
+          intro hmem
+          obtain ⟨q, hq, hqa⟩ := List.mem_map.1 hmem
+          obtain ⟨i, hi, h⟩ := List.mem_filterMap.1 hq
+          have : q.1 = i := by
+            split at h
+            · cases h
+            · cases h; rfl
+          apply hnd'.1
+          rw [← hqa, this]; exact hi
+    exact key _ List.nodup_range
+
+/-- after a successful `change` the calculator is at the requested point: `last_values` is the old
+vector with exactly the requested assignments applied (also when the call began by undoing the
+previous step) -/
+theorem change_reaches_request (g : Graph V) (hwf : g.WF) (x0 : Nat → V) (s0 : St V)
+    (h0 : init g x0 = some s0) (hist : List (List (Nat × V))) (hv : ∀ c, c ∈ hist → ValidCh g c)
+    (c : List (Nat × V)) (hc : ValidCh g c) (v : V)
+    (hr : (change g (runHist g s0 hist) c).2 = some v) (j : Nat) :
+    (change g (runHist g s0 hist) c).1.lastValues j = patch (runHist g s0 hist).lastValues c j :=
+  change_reaches g hwf _ c (inv_reachable g hwf x0 s0 h0 hist hv) hc v hr j
+
+/-- **`calculator(x)` returns `f(x)`**: after any history, a successful `testoptparvector(values)`
+leaves `last_values = values` and returns the last cell of a fresh evaluation at `values`. -/
+theorem call_correct (g : Graph V) (hwf : g.WF) (x0 : Nat → V) (s0 : St V)
+    (h0 : init g x0 = some s0) (hist : List (List (Nat × V))) (hv : ∀ c, c ∈ hist → ValidCh g c)
+    (hpos : 0 < g.n) (values : List V) (v : V)
+    (hr : (call g (runHist g s0 hist) values).2 = some v) :
+    (∀ j, j < g.nOpt → (call g (runHist g s0 hist) values).1.lastValues j = values.getD j default) ∧
+    (evalFresh g (call g (runHist g s0 hist) values).1.lastValues).map (fun l => l.getD (g.n - 1) default)
+      = some v := by
+  have hc := call_changes_valid g (runHist g s0 hist) values
+  refine ⟨fun j hj => ?_, calc_return_fresh g hwf x0 s0 h0 hist hv hpos _ hc v hr⟩
+  have := change_reaches_request g hwf x0 s0 h0 hist hv _ hc v hr j
+  exact this.trans (patch_diffVec g _ values j hj)
+
 /-- a call that fails (`CalculationInterupted` → the original exception is re-raised) leaves the
 calculator consistent with the vector it reports, its switch and buffer contents as they were
 before the call's own buffer flip (i.e. after the optional undo) -/
@@ -91,47 +159,6 @@ theorem spare_assert_never_fails (g : Graph V) (hwf : g.WF) (x0 : Nat → V) (s0
   · have := hp r hr hrec
     simp [hrec, this]
   · simp [hrec]
-
-/-- `testoptparvector` only ever produces change lists covered by the theorems above -/
-theorem call_changes_valid (g : Graph V) (s : St V) (values : List V) : ValidCh g (diffVec g s values) := by
-  unfold diffVec ValidCh
-  constructor
-  · intro p hp
-    obtain ⟨i, hi, h⟩ := List.mem_filterMap.1 hp
-    split at h
-    · cases h
-    · cases h; simpa using hi
-  · have key : ∀ (l : List Nat), l.Nodup →
-        ((l.filterMap (fun i =>
-          if s.lastValues i = values.getD i default then none
-          else some (i, values.getD i default))).map Prod.fst).Nodup := by
-      intro l
-      induction l with
-      | nil => intro _; simp
-      | cons a l ih =>
-        intro hnd
-        have hnd' := List.nodup_cons.1 hnd
-        simp only [List.filterMap_cons]
-        split
-        · exact ih hnd'.2
-        · rename_i b hb
-          simp only [List.map_cons, List.nodup_cons]
-          refine ⟨?_, ih hnd'.2⟩
-          have hb1 : b.1 = a := by
-            split at hb
-            · cases hb
-            · cases hb; rfl
-          rw [hb1]
-          intro hmem
-          obtain ⟨q, hq, hqa⟩ := List.mem_map.1 hmem
-          obtain ⟨i, hi, h⟩ := List.mem_filterMap.1 hq
-          have : q.1 = i := by
-            split at h
-            · cases h
-            · cases h; rfl
-          apply hnd'.1
-          rw [← hqa, this]; exact hi
-    exact key _ List.nodup_range
 
 /-! ### non-vacuity: a concrete graph with a recycled cell and a failing calc, a history with an
 exact reversal and a failing call -/
@@ -178,5 +205,73 @@ example : (init exG exX0).map (fun s0 => (change exG (runHist exG s0 (exHist.tak
 example : (init exG exX0).map (fun s0 => (change exG (runHist exG s0 (exHist.take 1)) [(0, 1)]).2) = some (some 14) := by
   decide
 example : (init exG exX0).map (fun s0 => diffVec exG s0 [1, 2]) = some [(1, 2)] := by decide
+
+/-! ## the ParameterController layer (dirty set, `updates_postponed`) -/
+section controller
+open CogentModel.Ctl
+
+/-- **controller_consistent_partial**: after any history of `assign` and (arbitrarily nested)
+`updates_postponed` blocks that are all left *normally*, whenever no block is open, updates are not
+suspended, nothing is marked dirty and every definition's value is what its rule gives from the
+current settings / argument values.  (Blocks left by an exception are excluded: see
+`controller_counter` — that is the genuine defect C07-postponed-block-exception….) -/
+theorem controller_consistent_partial (g : Ctl.Graph V) (hwf : Ctl.WF g) (setting : Nat → V)
+    (hist : List (Op V)) (hno : ∀ o, o ∈ hist → o ≠ Op.xexit) :
+    Ctl.Inv g (Ctl.run g (Ctl.init g setting) hist) ∧
+    ((Ctl.run g (Ctl.init g setting) hist).stack = [] →
+      (Ctl.run g (Ctl.init g setting) hist).suspended = false ∧
+      (Ctl.run g (Ctl.init g setting) hist).changed = [] ∧
+      ∀ k, k < g.length → LocalOK g (Ctl.run g (Ctl.init g setting) hist) k) := by
+  have h0 : Ctl.Inv g (Ctl.init g setting) := by
+    have hJ0 : J g (Ctl.init0 g setting) := by
+      intro k hk hkc; exact absurd (by simpa [Ctl.init0] using hk) hkc
+    obtain ⟨a, b, c, d, _⟩ := updateIntermediate_spec g hwf _ hJ0
+    refine ⟨a, ?_, fun _ => b rfl⟩
+    show StackOK (Ctl.init g setting).suspended (Ctl.init g setting).stack
+    unfold Ctl.init
+    rw [c, d]; rfl
+  have hI : Ctl.Inv g (Ctl.run g (Ctl.init g setting) hist) := by
+    generalize Ctl.init g setting = s0 at h0
+    induction hist generalizing s0 with
+    | nil => exact h0
+    | cons o os ih =>
+      simp only [Ctl.run]
+      apply ih (fun o' ho' => hno o' (by simp [ho']))
+      exact step_inv g hwf s0 o h0 (hno o (by simp))
+  refine ⟨hI, fun hst => ?_⟩
+  have hs := hI.stack
+  rw [hst] at hs
+  have hsusp : (Ctl.run g (Ctl.init g setting) hist).suspended = false := hs
+  refine ⟨hsusp, hI.clean hsusp, fun k hk => hI.j k hk ?_⟩
+  rw [hI.clean hsusp]; simp
+
+/-- the mirrored model does NOT satisfy the full statement: a block left by an exception leaves
+updates suspended, and a later assignment never reaches the derived value. -/
+theorem controller_counter :
+    let g : Ctl.Graph Int := [.leaf, .derived [0] (fun l => l.getD 0 0 + 1)]
+    let s := Ctl.run g (Ctl.init g (fun _ => 1)) [.enter, .assign 0 5, .xexit, .assign 0 7]
+    s.stack = [] ∧ s.suspended = true ∧ s.setting 0 = 7 ∧ s.values 1 = 2 := by
+  decide
+
+example : Ctl.WF ([.leaf, .leaf, .derived [0, 1] (fun l => l.foldl (· + ·) 0), .derived [2, 0] (fun l => l.foldl (· * ·) 1)] : Ctl.Graph Int) := by
+  intro k hk a ha
+  have : k < 4 := hk
+  match k, this with
+  | 0, _ => simp [Ctl.defn, Defn.args] at ha
+  | 1, _ => simp [Ctl.defn, Defn.args] at ha
+  | 2, _ => simp [Ctl.defn, Defn.args] at ha; omega
+  | 3, _ => simp [Ctl.defn, Defn.args] at ha; omega
+example :
+    let g : Ctl.Graph Int := [.leaf, .leaf, .derived [0, 1] (fun l => l.foldl (· + ·) 0), .derived [2, 0] (fun l => l.foldl (· * ·) 1)]
+    let s := Ctl.run g (Ctl.init g (fun _ => 1)) [.enter, .assign 0 5, .enter, .assign 1 2, .exit, .assign 0 3, .exit]
+    s.stack = [] ∧ (List.range 4).map s.values = [3, 2, 5, 15] := by
+  decide
+
+/- FULL STATEMENT (not proved — it is false for the code as written):
+   the same conclusion for histories that may contain `Op.xexit` (a `with lf.updates_postponed():`
+   block left by an exception).  `controller_counter` is the model-level witness; the real-code
+   witness is replayed on every run (known finding C07-postponed-block-exception-leaves-updates-suspended;
+   proposed repair fixes/C07-postponed-block-exception.patch wraps the `yield` in try/finally). -/
+end controller
 
 end CogentModel.C07
